@@ -8,8 +8,8 @@ the observations (reference bookkeeping per connection: stream sent, bytes deliv
 disconnected; per acceptor: connections waiting). -/
 namespace SockModel.Drive.C03
 open SockModel SockModel.Drive SockModel.Dispatch
-open SockModel.AsyncQ (Bytes)
-open SockModel.Drive.C02 (fnv takeObs)
+open SockModel.AsyncQ (Bytes fnv)
+open SockModel.Drive.C02 (takeObs)
 
 def pat (id j : Nat) : UInt8 := UInt8.ofNat ((id * 37 + j * 11 + (j / 251) * 3 + 1) % 256)
 def segment (id off len : Nat) : Bytes := (List.range len).map (fun j => pat id (off + j))
